@@ -4,6 +4,10 @@ import json, os, subprocess
 VERIF = os.path.dirname(os.path.dirname(os.path.abspath(__file__)))
 TB = 'trusted: Lean 4.33 kernel, axioms propext/Classical.choice/Quot.sound (audited each run), tools/translate.py, harness + compiled driver; '
 CLAIMS = {
+ 'C02': dict(
+    text='Lean 4 theorems over the model of Request::read (parse_encode: every well-formed request is accepted and read back as exactly what its bytes denote; parse_never_panics: every byte string is answered ok / error status / close), tied to the code by regenerated header and method tables and a differential run of the real parser (hook H2) against the model and an independent grammar-based reader, with every accessor called under catch_unwind',
+    note=TB + 'modelled not verified: byte_reader primitives, from_utf8, from_utf8_lossy, percent_decode (hand models validated by the correspondence run); head larger than the first read is C06',
+    technique='Lean 4 proof (round trip + totality of the parser model) + model/implementation correspondence'),
  'C03': dict(
     text='Lean 4 theorems over the model of Response (send_exact: bytes written = bytes reserved for every operation history; size invariant), tied to the code by regenerated header/status tables and a differential run of the real Response against the model and an independent HTTP reader',
     note=TB + 'modelled not verified: Content::Stream/WebSocket arms of send (C17 covers Stream)',
